@@ -1296,6 +1296,14 @@ func (c *Conn) readStreamOwned(fr *FrameHeader, r *Ctx) error {
 		r.headersDone = true
 	}
 
+	// A stream that ends before a header block with a final status has arrived
+	// carries no response (RFC 7540 8.1): DATA alone, or nothing but a 1xx
+	// block. Taken as it comes it would be reported as a success, with
+	// whatever status the Response happened to hold.
+	if err == nil && !r.headersDone && c.endsStream(fr) {
+		err = NewResetStreamError(ProtocolError, "the stream ended without a response")
+	}
+
 	return err
 }
 
